@@ -506,3 +506,19 @@ func init() {
 		},
 	})
 }
+
+func init() {
+	register(&Property{
+		ID: "C27",
+		Explanation: "Decides structural necessary conditions of 'line diffs are correct and minimal' on util/diff: GUARD(equal-empty): equal texts return the empty diff in the entry block. DTX(hunk-sizes): in hunk.add, leftSize grows exactly for lines that are not added ('+') and rightSize for lines that are not removed ('-'), so the @@ header describes the hunk. LOCKSTEP(chunk-merge): merging chunks adds del, ins and eq each (the script keeps covering both texts). SIBLING(trace-mirror): the len(a)==1 and len(b)==1 base cases of the edit-script recursion are mirror images (a<->b, del<->ins). INPLACE(write-behind-read): the in-place chunk merge of lcs never writes ahead of its read cursor. " +
+			"Not decided: minimality of the script (Myers' middle snake), that unequal texts render a non-empty diff, that the hunks apply - numerical/round-trip properties of runtime data.",
+		Rules: []string{"GUARD(equal-empty)", "DTX(hunk-sizes)", "LOCKSTEP(chunk-merge)", "SIBLING(trace-mirror)", "INPLACE(write-behind-read)"},
+		Run: func(c *Ctx) {
+			ruleDIFFEQUAL(c)
+			ruleHUNKSIZES(c)
+			ruleCHUNKMERGE(c)
+			ruleTRACEMIRROR(c)
+			ruleINPLACE(c, "util/diff")
+		},
+	})
+}
